@@ -455,10 +455,10 @@ type collectCase struct {
 	Rank  []int    `json:"rank"`
 }
 
-const collectStep = 35 * time.Millisecond
+const collectStep = 30 * time.Millisecond
 
 func genCollect(r *Rng) *collectCase {
-	n := r.Range(2, 6)
+	n := r.Range(2, 5)
 	c := &collectCase{}
 	var remote []int
 	for i := 0; i < n; i++ {
@@ -518,20 +518,13 @@ func (t *collectTransport) RoundTrip(req *http.Request) (*http.Response, error) 
 	return st.RoundTrip(req)
 }
 
-func collectRun(c *collectCase) Step {
-	collectRepoOnce.Do(func() {
-		collectRepo = BuildSynthRepo([]SPkg{{Name: "one", Version: "1.0-r0", Origin: "one", BuildTime: 1600000000,
-			Files: []SFile{{Path: "opt", Type: "dir", Mode: 0o755}, {Path: "opt/one", Type: "file", Mode: 0o644, Content: "1"}}}}, []string{"x86_64"})
-	})
-	work, err := os.MkdirTemp("", "verif-collect-")
-	if err != nil {
-		panic(err)
-	}
-	defer os.RemoveAll(work)
+// collectOnce: one call of the real function with the remote lines answering in the order of `rank`; returns the
+// positions of the returned indexes and the completion order imposed.
+func collectOnce(c *collectCase, rank []int, work string) (goOut string, bits []byte, sched []string, inLineOrder bool) {
 	n := len(c.Kinds)
 	lines := make([]string, n)
 	src := make([]string, n)
-	bits := make([]byte, n)
+	bits = make([]byte, n)
 	tr := &collectTransport{repo: collectRepo, delay: map[string]time.Duration{}}
 	type ev struct{ rank, pos int }
 	var local, remote []ev
@@ -545,8 +538,8 @@ func collectRun(c *collectCase) Step {
 			if k == "pinned" {
 				lines[i] = fmt.Sprintf("@tag%d %s", i, src[i])
 			}
-			tr.delay[host] = time.Duration(c.Rank[i]) * collectStep
-			remote = append(remote, ev{c.Rank[i], i})
+			tr.delay[host] = time.Duration(rank[i]) * collectStep
+			remote = append(remote, ev{rank[i], i})
 		case "file":
 			src[i] = filepath.Join(work, fmt.Sprintf("f%d", i))
 			lines[i] = src[i]
@@ -560,13 +553,13 @@ func collectRun(c *collectCase) Step {
 		}
 	}
 	sort.Slice(remote, func(a, b int) bool { return remote[a].rank < remote[b].rank })
-	var sched []string
 	for _, e := range append(local, remote...) {
 		sched = append(sched, fmt.Sprint(e.pos))
 	}
+	inLineOrder = sort.SliceIsSorted(remote, func(a, b int) bool { return remote[a].pos < remote[b].pos })
 	keys := map[string][]byte{synthKeyName: collectRepo.KeyPEM}
 	idx, err := apk.GetRepositoryIndexes(context.Background(), lines, keys, "x86_64", apk.WithHTTPClient(&http.Client{Transport: tr}))
-	goOut := "-"
+	goOut = "-"
 	if err != nil {
 		goOut = "err:" + firstLine(err.Error())
 	} else if len(idx) > 0 {
@@ -586,7 +579,40 @@ func collectRun(c *collectCase) Step {
 		}
 		goOut = strings.Join(ps, ",")
 	}
-	return Step{Line: fmt.Sprintf("x.collect\t%d\t%s\t%s", n, bits, strings.Join(sched, ",")), Go: goOut,
-		Desc: fmt.Sprintf("GetRepositoryIndexes over the lines %v, indexes ready in the order of positions %v", c.Kinds, sched),
-		Tags: []string{fmt.Sprintf("collect-lines:%d", n), fmt.Sprintf("collect-in-line-order:%v", sort.SliceIsSorted(remote, func(a, b int) bool { return remote[a].pos < remote[b].pos }))}}
+	return
+}
+
+// collectRun: the real GetRepositoryIndexes under the generated completion order and under its reverse.
+// Correspondence: the answer under the first is the model's (`collectPositional` under that schedule); oracle (C01):
+// both completion orders give one answer.
+func collectRun(c *collectCase) Step {
+	collectRepoOnce.Do(func() {
+		collectRepo = BuildSynthRepo([]SPkg{{Name: "one", Version: "1.0-r0", Origin: "one", BuildTime: 1600000000,
+			Files: []SFile{{Path: "opt", Type: "dir", Mode: 0o755}, {Path: "opt/one", Type: "file", Mode: 0o644, Content: "1"}}}}, []string{"x86_64"})
+	})
+	work, err := os.MkdirTemp("", "verif-collect-")
+	if err != nil {
+		panic(err)
+	}
+	defer os.RemoveAll(work)
+	maxRank := 0
+	for _, r := range c.Rank {
+		maxRank = max(maxRank, r)
+	}
+	rev := make([]int, len(c.Rank))
+	for i, r := range c.Rank {
+		rev[i] = r
+		if r >= 0 {
+			rev[i] = maxRank - r
+		}
+	}
+	go1, bits, sched1, lo1 := collectOnce(c, c.Rank, work)
+	go2, _, sched2, lo2 := collectOnce(c, rev, work)
+	verdict := "pass"
+	if go1 != go2 {
+		verdict = fmt.Sprintf("fail:indexes ready in the order %v gave positions %s, ready in the order %v gave positions %s", sched1, go1, sched2, go2)
+	}
+	return Step{Line: fmt.Sprintf("x.collect\t%d\t%s\t%s", len(c.Kinds), bits, strings.Join(sched1, ",")), Go: go1, Mode: "oracle-go", GoSpec: verdict,
+		Desc: fmt.Sprintf("GetRepositoryIndexes over the lines %v, indexes ready in the order of positions %v and then %v", c.Kinds, sched1, sched2),
+		Tags: []string{fmt.Sprintf("collect-lines:%d", len(c.Kinds)), fmt.Sprintf("collect-in-line-order:%v", lo1 || lo2)}}
 }
